@@ -104,8 +104,8 @@ theorem moveClimbLoop_spec {g : Geo} {fuel : Nat} {loc : Pos} {tape rest : Tape}
     · simp at h
     · simp at h
 
-theorem moveClimb_spec {g : Geo} {loc : Option Pos} {e : Option Rat} {tape rest : Tape} {p : Pos}
-    (h : moveClimb g loc e tape = .ok (p, rest)) :
+theorem moveClimb_spec {g : Geo} {loc : Option Pos} {e : Option Rat} {fuel : Nat} {tape rest : Tape} {p : Pos}
+    (h : moveClimb g loc e fuel tape = .ok (p, rest)) :
     rest <:+ tape ∧ Draw.feas p true ∈ tape ∧ Origin g tape p := by
   unfold moveClimb at h
   split at h
